@@ -153,6 +153,29 @@ theorem final_qnames_unique (style : Str) (cs : List Cls) (hwf : ∀ c ∈ cs, w
   have h := Props.C07.class_keys_distinct_after_rename style cs hwf
   exact List.Pairwise.of_map _ (fun a b hab he => hab (by rw [he])) h
 
+/-! ## the names written inside one class body (audit findings, round c07e) -/
+
+open Py Xs.Text Xs.Filters Proofs.Names in
+/-- inside one class body the fields and the inner classes are named by two independent
+conventions at render time. **If the field case always starts lower (snake, camel) and the class
+case always starts upper (pascal, mixedPascal, screamingSnake)** — the default pair is one — then
+for every list of field source names and every list of inner class source names: no field is named
+like an inner class (`C07-field-named-like-inner-class` cannot happen), and under ALL conventions
+no rendered name starts with two underscores (repair c07e-01: nothing is name-mangled). For the
+other pairs of conventions the first part is false: `Props.C07.field_named_like_inner_class`. -/
+theorem class_body_names_separate (e : Env) (u : UEnv) (cvF cvC : Conv)
+    (hvF : validPrefix cvF.pfx = true) (hvC : validPrefix cvC.pfx = true)
+    (fields inners : List Str) :
+    (∀ a ∈ fields, ∀ rf, safeName e u cvF a = .ok rf → Props.C07.startsDunder rf = false) ∧
+    (∀ b ∈ inners, ∀ rc, safeName e u cvC b = .ok rc → Props.C07.startsDunder rc = false) ∧
+    (startsLower cvF.case = true → startsUpper cvC.case = true →
+      ∀ a ∈ fields, ∀ b ∈ inners, ∀ rf rc,
+        safeName e u cvF a = .ok rf → safeName e u cvC b = .ok rc → rf ≠ rc) :=
+  ⟨fun a _ rf h => Props.C07.safe_name_never_mangled e u cvF hvF a rf h,
+   fun b _ rc h => Props.C07.safe_name_never_mangled e u cvC hvC b rc h,
+   fun hF hC a _ b _ rf rc h1 h2 =>
+     Props.C07.field_name_never_a_class_name e u cvF cvC hvF hvC hF hC a b rf rc h1 h2⟩
+
 /-! ## inner classes and the classes created for ambiguous choices (repairs c07d-01, c07d-02) -/
 
 open Xs.Rename Xs.Text Proofs.RenameClasses in
